@@ -240,3 +240,35 @@ def bootstrap_classification_unexpected():
     except Exception as e:  # noqa
         out["exc"] = f"{type(e).__name__}: {e}"
     return out
+
+
+def national_summary_orders(orders=(("postal_code", "unit"), ("postal_code", "county_fips", "unit"), ("county_fips", "postal_code", "unit"), ("postal_code", "county_classification", "county_fips", "unit"))):
+    """bootstrap run followed by the national summary, for several lists/orders of requested aggregates:
+    the summary must not fail and must be the same for all of them"""
+    base = synthetic(40, seed=1)
+    cur = feed(base, [100] * 25 + [40] * 15)
+    out = {"exc": None, "summaries": []}
+    try:
+        for aggs in orders:
+            c, res = run_client(cur, base, estimands=("margin",), pi_method="bootstrap", prediction_intervals=(0.9,), aggregates=aggs, features=("baseline_normalized_margin",), model_parameters={"B": 30})
+            s = c.get_national_summary_votes_estimates({"AA": 3, "BB": 5}, 10, [0.9])
+            out["summaries"].append(s.values.tolist())
+        out["all_equal"] = all(x == out["summaries"][0] for x in out["summaries"])
+    except Exception as e:  # noqa
+        out["exc"] = f"{type(e).__name__}: {e}"
+    return out
+
+
+def called_and_stopped():
+    """bootstrap: contest BB called for the right-hand party AND stop-listed, with a negative interval"""
+    base = synthetic(40, seed=1)
+    cur = feed(base, [100] * 25 + [40] * 15)
+    cur.loc[cur.postal_code == "BB", "results_dem"] = (cur.loc[cur.postal_code == "BB", "results_dem"] * 0.5).astype(int)
+    out = {"exc": None}
+    try:
+        c, res = run_client(cur, base, estimands=("margin",), pi_method="bootstrap", prediction_intervals=(0.9,), aggregates=("postal_code", "unit"), features=("baseline_normalized_margin",), model_parameters={"B": 30}, rhs_called_contests=["BB"], stop_model_call=["BB"])
+        s = res["state_data"].set_index("postal_code").loc["BB"]
+        out.update(pred=float(s["pred_margin"]), lower=float(s["lower_0.9_margin"]), upper=float(s["upper_0.9_margin"]))
+    except Exception as e:  # noqa
+        out["exc"] = f"{type(e).__name__}: {e}"
+    return out
